@@ -69,7 +69,7 @@ def entries_for(root, ci):
         dbp = os.path.join(root, f"db{os.getpid()}_{ci}.json")
         with open(dbp, "w") as fh:
             json.dump([{"file": f, "directory": root, "arguments": [comp] + args + ["-c", f]}], fh)
-        config._compilers = None
+        env.reset_compilers()
         _entries[key] = config.load_database(dbp, root)
         os.unlink(dbp)
     return copy.deepcopy(_entries[key])
